@@ -88,6 +88,10 @@ def execute(c):
             s, d = c["pair"].split(">")
             shp = _build(kind, c["geo"], REAL[s])
             g = Geometry(shp, f"epsg:{s}")
+            if c.get("prior", "none") != "none":
+                # earlier in the process somebody asked for the authority-axis-order transformers of this pair
+                CRS(f"epsg:{s}").transformer_to_crs(CRS(f"epsg:{d}"), always_xy=False)
+                CRS(f"epsg:{d}").transformer_to_crs(CRS(f"epsg:{s}"), always_xy=False)
             unit = 1 / 1000 if s == "4326" else 10.0
             res = c["r"] * unit if c["r"] else None
             out = g.to_crs(f"epsg:{d}", resolution=res)
